@@ -2,7 +2,10 @@
 
 package rtsp
 
-import "net"
+import (
+	"net"
+	"sync/atomic"
+)
 
 // VerifHandleConn is Server.handleTcpConnect.
 func VerifHandleConn(s *Server, conn net.Conn) { s.handleTcpConnect(conn) }
@@ -27,4 +30,17 @@ func verifDial(network, addr string) (net.Conn, error) {
 		return VerifDialFn(network, addr)
 	}
 	return net.Dial(network, addr)
+}
+
+// VerifAsync counts the asynchronous OnSdp deliveries of BaseInSession.SetObserver that have been
+// started and not finished (vgen rewrites that `go func() {...}()` to verifGo(func() {...})): the
+// environment waits for the count to return to zero before it takes a step as settled.
+var VerifAsync int64
+
+func verifGo(f func()) {
+	atomic.AddInt64(&VerifAsync, 1)
+	go func() {
+		defer atomic.AddInt64(&VerifAsync, -1)
+		f()
+	}()
 }
